@@ -103,7 +103,7 @@ func VH_C06_TransportAbandoned() {
 		}
 		return c
 	}
-	conns := []*vhFakeConn{mkConn(100, true), mkConn(200, false)}
+	conns := []*vhFakeConn{mkConn(100, true), mkConn(200, true)}
 	ready := make(event)
 	close(ready)
 	p := &connPool{
@@ -143,8 +143,13 @@ func VH_C06_TransportAbandoned() {
 	vhRunAll()
 	vhRunAll()
 	vhRunAll()
-	// the broker's answer to the abandoned request arrives late
+	vhAssert(dials == 2 && len(conns[1].written) > 0 && !doneB, "request-B-is-in-flight-on-connection-2")
+	// the broker's answer to the abandoned request arrives late, while B is still waiting for its own answer
 	close(conns[0].gate)
+	vhRunAll()
+	vhRunAll()
+	vhAssert(!doneB, "the-late-answer-to-the-abandoned-call-does-not-complete-another-call")
+	close(conns[1].gate)
 	vhRunAll()
 	vhRunAll()
 	vhAssert(doneB, "call-B-completes")
